@@ -113,20 +113,25 @@ class Flow:
         self.fi = fi
         self.cfg = ana.cfg(fi)
         self.rd = ana.rd(fi)
+        self._descend_call = None
 
     def at(self, e) -> Node:
         return self.cfg.node_of(e)
 
-    def closure(self, e: ast.AST, at: Optional[Node] = None, through_calls=True) -> Dep:
+    def closure(self, e: ast.AST, at: Optional[Node] = None, through_calls=True, descend_call=None) -> Dep:
+        """descend_call(call) -> bool: whether the arguments of a call contribute to the value
+        (default: always).  Used for value-taint as opposed to object-reachability."""
         dep = Dep()
         seen: Set[Tuple[int, str]] = set()
+        self._descend_call = descend_call
         self._walk(e, at or self.at(e), dep, seen, through_calls, bound=set())
+        self._descend_call = None
         return dep
 
     def _walk(self, e, at: Node, dep: Dep, seen, through_calls, bound: Set[str]):
         if e is None:
             return
-        for n in _walk_expr(e):
+        for n in _walk_expr(e, getattr(self, '_descend_call', None)):
             if isinstance(n, (ast.ListComp, ast.SetComp, ast.GeneratorExp, ast.DictComp)):
                 inner = set(bound)
                 for g in n.generators:
@@ -235,12 +240,14 @@ class Flow:
         return None
 
 
-def _walk_expr(e):
+def _walk_expr(e, descend_call=None):
     """Pre-order walk that does not descend into comprehensions (handled by the caller)."""
     stack = [e]
     while stack:
         n = stack.pop()
         yield n
+        if descend_call is not None and isinstance(n, ast.Call) and not descend_call(n):
+            continue
         if isinstance(n, (ast.ListComp, ast.SetComp, ast.GeneratorExp, ast.DictComp)) and n is not e:
             continue
         if isinstance(n, (ast.ListComp, ast.SetComp, ast.GeneratorExp, ast.DictComp)):
